@@ -20,36 +20,37 @@ def cases(tier, seed):
                                                           gen.table_from_edges([[0, 2, 3, 7, 8], [0, 1, 2, 3]]), gen.binnify([9], 3)]
     n1 = 420 if tier == "quick" else 7000
     for h in range(n1):
-        table = tables[h % len(tables)]
+        F_h = gen.feat(101, h)          # independent feature choices per case (gen.feat)
+        table = tables[F_h("len_tables@22", len(tables))]
         n = len(table)
-        mode = "symm" if h % 3 else "square"
-        px = gen.random_store(rng, n, mode, maxval=5) if h % 10 else []
-        ncols = [1, 1, 1, 2][h % 4]
+        mode = "symm" if F_h("m3@24", 3) else "square"
+        px = gen.random_store(rng, n, mode, maxval=5) if F_h("m10@25", 10) else []
+        ncols = [1, 1, 1, 2][F_h("m4@26", 4)]
         cols = ["count", "x"][:ncols]
         aggs = ["sum"] + [rng.choice(["sum", "max", "min"]) for _ in range(ncols - 1)]
         case = {"table": table, "mode": mode, "px": addcols(px, ncols, rng), "cols": cols, "aggs": aggs,
                 "k": rng.choice([2, 2, 3, 4, 5, 7, n + 1]), "chunk": rng.choice([1, 2, 3, 5, 10 ** 6]),
-                "nproc": 1, "group": "/" if h % 5 else "/c"}
-        if h % 40 == 7:
+                "nproc": 1, "group": "/" if F_h("m5@31", 5) else "/c"}
+        if F_h("m40@32", 40) == 7:
             case["nproc"] = rng.choice([2, 3])          # real process pools (slow): a few
-        if h % 9 == 5 or h % 16 == 3:
+        if F_h("cli", 6) == 0:
             case["via"] = "cli"
-            case["fieldstyle"] = (h // 3) % 4
-            if h % 16 == 3:
+            case["fieldstyle"] = F_h("d3_4@36", 4)
+            if F_h("nonsum_count", 3) == 0:
                 case["aggs"] = [rng.choice(["max", "min"])] + case["aggs"][1:]      # a non-default aggregate for count
-        if h % 6 == 1 and ncols == 1:
+        if F_h("m6@39", 6) == 1 and ncols == 1:
             case["scale"] = 4                            # float64 counts: multiples of 0.25
-        elif h % 7 == 3:
-            case["src_at"] = ["/resolutions/1", "/a/b"][h % 2]     # the source is a level of a multires file / a nested group
-        if h % 8 == 6 and "scale" not in case and "via" not in case:
+        elif F_h("m7@41", 7) == 3:
+            case["src_at"] = ["/resolutions/1", "/a/b"][F_h("m2@42", 2)]     # the source is a level of a multires file / a nested group
+        if F_h("m8@43", 8) == 6 and "scale" not in case and "via" not in case:
             # narrow integer columns near their limit in the source, a wide type asked for in the result: block sums that
             # do not fit the SOURCE type must come out exact
-            case["in_dtype"] = ["int8", "uint8", "int16"][h % 3]
+            case["in_dtype"] = ["int8", "uint8", "int16"][F_h("m3@46", 3)]
             top = {"int8": 127, "uint8": 255, "int16": 32767}[case["in_dtype"]]
             case["px"] = [[p[0], p[1]] + [rng.choice([top, top - 1, top // 2 + 1]) for _ in p[2:]] for p in case["px"]]
             case["out_dtype"] = "int64"
             case.pop("src_at", None)           # (the decoy collection next to a nested source holds values + 1)
-        if h % 10 == 9 and "via" not in case:
+        if F_h("m10@51", 10) == 9 and "via" not in case:
             # the source path was used before, by this process, for a cooler with OTHER bin boundaries
             lens = gen.chrom_lens(table)
             case["prior_table"] = gen.table_from_edges([[0, ln] if ln < 2 else [0, 1, ln] for ln in lens])
@@ -66,14 +67,16 @@ def cases(tier, seed):
                                  "nproc": 1, "group": "/"}
     # the reader-writer lock protocol when coarsening with worker processes INTO THE FILE BEING READ (slow: real pools)
     for h in range(8 if tier == "quick" else 120):
-        table = [gen.binnify([10, 6], 1), gen.binnify([14], 1), gen.binnify([7, 5, 4], 1)][h % 3]
-        mode = "symm" if h % 3 else "square"
+        F_h = gen.feat(102, h)          # independent feature choices per case (gen.feat)
+        table = [gen.binnify([10, 6], 1), gen.binnify([14], 1), gen.binnify([7, 5, 4], 1)][F_h("m3@68", 3)]
+        mode = "symm" if F_h("m3@69", 3) else "square"
         yield "co.lock", {"table": table, "mode": mode, "px": gen.random_store(rng, len(table), mode, density=0.5, maxval=4),
                           "k": rng.choice([2, 3]), "chunk": rng.choice([3, 5, 9, 17]), "nproc": rng.choice([2, 3])}
     for h in range(60 if tier == "quick" else 900):
-        table = tables[h % len(tables)]
+        F_h = gen.feat(103, h)          # independent feature choices per case (gen.feat)
+        table = tables[F_h("len_tables@73", len(tables))]
         n = len(table)
-        mode = "symm" if h % 2 else "square"
+        mode = "symm" if F_h("m2@75", 2) else "square"
         yield "co.algebra", {"table": table, "mode": mode, "px": gen.random_store(rng, n, mode, maxval=4),
                              "px2": gen.random_store(rng, n, mode, maxval=4), "k1": rng.choice([2, 3]), "k2": rng.choice([2, 3]),
                              "chunk": rng.choice([1, 3, 10 ** 6]), "buf": rng.choice([1, 4, 10 ** 6])}
